@@ -174,3 +174,50 @@ def adjust_default_skew(t: list[int], offset: int) -> str:
         if g.start != t[2 * i] + offset or g.end != t[2 * i + 1] + offset or g.nodes[0] is not n1[i]:
             return "times/nodes"
     return ""
+
+
+def _mk2(times, shapes, tag):
+    """captions whose node lists have different shapes: 0 [text]; 1 [text, break]; 2 [break, text]; 3 [text, break, text]"""
+    caps = []
+    nodes = []
+    for i in range(len(times) // 2):
+        t = CaptionNode.create_text(tag + str(i))
+        sh = shapes[i]
+        if sh == 0:
+            ns = [t]
+        elif sh == 1:
+            ns = [t, CaptionNode.create_break()]
+        elif sh == 2:
+            ns = [CaptionNode.create_break(), t]
+        else:
+            ns = [t, CaptionNode.create_break(), CaptionNode.create_text(tag + str(i) + "b")]
+        nodes.append(ns)
+        caps.append(Caption(times[2 * i], times[2 * i + 1], list(ns)))
+    return caps, nodes
+
+
+def merge_shapes(t: list[int], s0: int, s1: int, s2: int) -> str:
+    """
+    pre: len(t) == 6 and 0 <= s0 < 3 and 0 <= s1 < 3 and 0 <= s2 < 3
+    post: _ == ""
+    """
+    caps, nodes = _mk2(t, [3 if s0 == 2 else s0, 3 if s1 == 2 else s1, 2 if s2 == 2 else s2], "a")
+    out = merge_concurrent_captions(CaptionSet({"en": CaptionList(caps)})).get_captions("en")
+    runs = _expected_runs(t)
+    if len(out) != len(runs):
+        return "caption count"
+    for cap, run in zip(out, runs):
+        want = []
+        for j, idx in enumerate(run):
+            if j > 0:
+                want.append(None)  # the separating break
+            want.extend(nodes[idx])
+        if len(cap.nodes) != len(want):
+            return "node count (all nodes of the run, one break between members)"
+        for got, w in zip(cap.nodes, want):
+            if w is None:
+                if got.type_ != CaptionNode.BREAK:
+                    return "missing separator"
+            elif got is not w:
+                return "node identity/order"
+    return ""
